@@ -129,6 +129,30 @@ class Ctx(object):
             self.transitions += r.generated
         return r
 
+    def apalache(self, module, obligations):
+        """Discharge proof obligations with Apalache (symbolic; inductive-invariant style).  `obligations` is a list of
+        (init, inv, length, next, expect) with expect in {"NoError", "Error"}; an "Error" expectation is a negative
+        control (a deliberately wrong action must be refuted).  Any other outcome is a machinery failure: the
+        reference design itself, not the code, would be wrong."""
+        from concurrent.futures import ThreadPoolExecutor
+        def one(ob):
+            init, inv, length, nxt, expect = ob
+            oc, wall, tail = _tlc.run_apalache(module, init, inv, length, nxt, workdir=self.work)
+            return ob, oc, wall, tail
+        with ThreadPoolExecutor(max_workers=3) as ex:
+            results = list(ex.map(one, obligations))
+        rows = []
+        for (init, inv, length, nxt, expect), oc, wall, tail in results:
+            rows.append({"module": module, "init": init, "inv": inv, "length": length, "next": nxt, "expected": expect,
+                         "outcome": oc, "wall_s": round(wall, 1)})
+            if oc != expect:
+                raise MachineryError("apalache %s: --init=%s --inv=%s --length=%d --next=%s gave %s, expected %s\n%s"
+                                     % (module, init, inv, length, nxt, oc, expect, tail))
+        self.extra.setdefault("apalache_obligations", []).extend(rows)
+        self.log("apalache %s: %d obligation(s) as expected (%s)" % (module, len(rows),
+                 ", ".join("%s/%s/%s:%s" % (r["init"], r["inv"], r["next"], r["outcome"]) for r in rows)))
+        return rows
+
     # ------------------------------------------------------------------ driving
     def drive(self, cases, run_case, parallel=True, chunksize=8, procs=None):
         """Run run_case(case) -> [event, ...] for every case.  Returns list of
